@@ -2384,3 +2384,266 @@ func filepathBase(s string) string {
 	}
 	return s
 }
+
+// E11GlyphCursor: a glyph cursor kept in step with an item walk advances once per item, whatever its type.
+func E11GlyphCursor(c *core.Ctx, r *core.Report) {
+	r.Rule("E11.glyph-cursor", "RichText.ToText walks the line breaker's items while keeping an offset into the glyph slice; every item (box, glue, penalty — a soft hyphen is a penalty that owns a glyph) owns Size glyphs. In a loop over the items in which an integer variable is advanced by an item's Size and also bounds or indexes the glyphs, every path through one iteration that does not leave the loop advances that variable by the item's Size exactly once. Advancing it only for some item types puts the glue stretch of a justified line on the wrong glyphs")
+	p := c.MustPkg("")
+	info := p.TypesInfo
+	fd := core.MustFuncDecl(p, "RichText.ToText")
+	r.Func("canvas.RichText.ToText")
+	n := 0
+	isSizeOfItem := func(e ast.Expr) bool {
+		sel, ok := core.Unparen(e).(*ast.SelectorExpr)
+		if !ok || sel.Sel.Name != "Size" {
+			return false
+		}
+		t := info.TypeOf(sel.X)
+		return t != nil && isNamed(t, "canvas/text", "Item")
+	}
+	ast.Inspect(fd.Body, func(m ast.Node) bool {
+		var body *ast.BlockStmt
+		switch x := m.(type) {
+		case *ast.ForStmt:
+			body = x.Body
+		case *ast.RangeStmt:
+			body = x.Body
+		default:
+			return true
+		}
+		// candidates: V += <item>.Size directly in this loop's own body (not in nested loops)
+		cands := map[types.Object]bool{}
+		var collect func(list []ast.Stmt)
+		collect = func(list []ast.Stmt) {
+			for _, s := range list {
+				switch x := s.(type) {
+				case *ast.AssignStmt:
+					if x.Tok == token.ADD_ASSIGN && len(x.Lhs) == 1 && isSizeOfItem(x.Rhs[0]) {
+						if id, ok := x.Lhs[0].(*ast.Ident); ok {
+							cands[core.ObjOf(info, id)] = true
+						}
+					}
+				case *ast.IfStmt:
+					collect(x.Body.List)
+					if eb, ok := x.Else.(*ast.BlockStmt); ok {
+						collect(eb.List)
+					} else if ei, ok := x.Else.(*ast.IfStmt); ok {
+						collect([]ast.Stmt{ei})
+					}
+				case *ast.BlockStmt:
+					collect(x.List)
+				}
+			}
+		}
+		collect(body.List)
+		for v := range cands {
+			// used to bound or index the glyphs inside this loop?
+			uses := false
+			ast.Inspect(body, func(k ast.Node) bool {
+				switch x := k.(type) {
+				case *ast.ForStmt:
+					if be, ok := x.Cond.(*ast.BinaryExpr); ok {
+						if id, ok := core.Unparen(be.Y).(*ast.Ident); ok && core.ObjOf(info, id) == v {
+							// the inner loop's variable indexes glyphs
+							ast.Inspect(x.Body, func(q ast.Node) bool {
+								if ie, ok := q.(*ast.IndexExpr); ok {
+									if t := info.TypeOf(ie.X); t != nil {
+										if sl, ok := t.Underlying().(*types.Slice); ok && isNamed(sl.Elem(), "canvas/text", "Glyph") {
+											uses = true
+										}
+									}
+								}
+								return true
+							})
+						}
+					}
+				case *ast.IndexExpr:
+					if t := info.TypeOf(x.X); t != nil {
+						if sl, ok := t.Underlying().(*types.Slice); ok && isNamed(sl.Elem(), "canvas/text", "Glyph") {
+							ast.Inspect(x.Index, func(q ast.Node) bool {
+								if id, ok := q.(*ast.Ident); ok && core.ObjOf(info, id) == v {
+									uses = true
+								}
+								return true
+							})
+						}
+					}
+				}
+				return true
+			})
+			if !uses {
+				continue
+			}
+			n++
+			// enumerate paths: min and max number of advances of v per iteration that stays in the loop
+			var count func(list []ast.Stmt) (int, int, bool) // min, max, leaves
+			count = func(list []ast.Stmt) (int, int, bool) {
+				lo, hi := 0, 0
+				for _, s := range list {
+					switch x := s.(type) {
+					case *ast.AssignStmt:
+						if x.Tok == token.ADD_ASSIGN && len(x.Lhs) == 1 && isSizeOfItem(x.Rhs[0]) {
+							if id, ok := x.Lhs[0].(*ast.Ident); ok && core.ObjOf(info, id) == v {
+								lo++
+								hi++
+							}
+						}
+					case *ast.BranchStmt:
+						return lo, hi, true
+					case *ast.ReturnStmt:
+						return lo, hi, true
+					case *ast.BlockStmt:
+						a, b, lv := count(x.List)
+						lo, hi = lo+a, hi+b
+						if lv {
+							return lo, hi, true
+						}
+					case *ast.IfStmt:
+						a1, b1, l1 := count(x.Body.List)
+						a2, b2, l2 := 0, 0, false
+						if eb, ok := x.Else.(*ast.BlockStmt); ok {
+							a2, b2, l2 = count(eb.List)
+						} else if ei, ok := x.Else.(*ast.IfStmt); ok {
+							a2, b2, l2 = count([]ast.Stmt{ei})
+						}
+						switch {
+						case l1 && l2:
+							return lo, hi, true
+						case l1:
+							lo, hi = lo+a2, hi+b2
+						case l2:
+							lo, hi = lo+a1, hi+b1
+						default:
+							if a2 < a1 {
+								a1 = a2
+							}
+							if b2 > b1 {
+								b1 = b2
+							}
+							lo, hi = lo+a1, hi+b1
+						}
+					}
+				}
+				return lo, hi, false
+			}
+			lo, hi, _ := count(body.List)
+			key := fmt.Sprintf("canvas.RichText.ToText|glyph cursor #%d advances once per item", n)
+			if lo == 1 && hi == 1 {
+				r.OK("E11.glyph-cursor", key, c.Pos(body.Pos()), "")
+			} else {
+				r.Fail("E11.glyph-cursor", key, c.Pos(body.Pos()), fmt.Sprintf("`%s` bounds or indexes the glyphs but is advanced by the item's Size between %d and %d times on the paths through one iteration: items of some type (a penalty owning the glyph of a soft hyphen) are not counted, and everything after them on the line is applied to the wrong glyphs", v.Name(), lo, hi))
+			}
+		}
+		return true
+	})
+	r.Count("E11.glyph-cursors", n)
+	r.Floor("E11.glyph-cursors", 1)
+}
+
+// E11ReturnedScratch: a function of the SVG importer does not hand out its reusable scratch buffer.
+func E11ReturnedScratch(c *core.Ctx, r *core.Report, fileSuffix string) {
+	r.Rule("E11.returned-scratch", "in the SVG importer no function returns a slice built on the capacity-keeping reslice `B[:0]` of a buffer B that outlives the call (a field of the receiver or a package variable): callers keep such results (the dash array goes into the drawing state, which Push copies by value), and the next call overwrites them in place. Every []float64/[]string-returning function of the file is examined")
+	p := c.MustPkg("")
+	info := p.TypesInfo
+	n := 0
+	for _, fd := range core.AllFuncDecls(p) {
+		if fd.Body == nil || !strings.HasSuffix(c.Fset.Position(fd.Pos()).Filename, fileSuffix) {
+			continue
+		}
+		if fd.Type.Results == nil {
+			continue
+		}
+		returnsSlice := false
+		for _, fl := range fd.Type.Results.List {
+			if t := info.TypeOf(fl.Type); t != nil {
+				if _, ok := t.Underlying().(*types.Slice); ok {
+					returnsSlice = true
+				}
+			}
+		}
+		if !returnsSlice {
+			continue
+		}
+		n++
+		fname := "canvas." + core.FuncName(fd)
+		// taint: locals initialised from <long-lived>[:0]
+		longLived := func(e ast.Expr) bool {
+			e = core.Unparen(e)
+			switch x := e.(type) {
+			case *ast.SelectorExpr:
+				if sel := info.Selections[x]; sel != nil && sel.Kind() == types.FieldVal {
+					return true
+				}
+			case *ast.Ident:
+				if o := core.ObjOf(info, x); o != nil && o.Parent() == p.Types.Scope() {
+					return true
+				}
+			}
+			return false
+		}
+		taint := map[types.Object]ast.Expr{}
+		changed := true
+		for changed {
+			changed = false
+			ast.Inspect(fd.Body, func(m ast.Node) bool {
+				as, ok := m.(*ast.AssignStmt)
+				if !ok || len(as.Lhs) != len(as.Rhs) {
+					return true
+				}
+				for i, l := range as.Lhs {
+					id, ok := l.(*ast.Ident)
+					if !ok {
+						continue
+					}
+					o := core.ObjOf(info, id)
+					if o == nil || taint[o] != nil {
+						continue
+					}
+					rh := core.Unparen(as.Rhs[i])
+					if se, ok := rh.(*ast.SliceExpr); ok && se.Max == nil && !se.Slice3 && longLived(se.X) {
+						if hv, ok := core.ConstInt(info, se.High); ok && hv == 0 {
+							taint[o] = se.X
+							changed = true
+						}
+					}
+					// v = append(w, …) with w tainted
+					if call, ok := rh.(*ast.CallExpr); ok && len(call.Args) > 0 {
+						if f, ok := call.Fun.(*ast.Ident); ok && f.Name == "append" {
+							if w, ok := core.Unparen(call.Args[0]).(*ast.Ident); ok {
+								if src := taint[core.ObjOf(info, w)]; src != nil {
+									taint[o] = src
+									changed = true
+								}
+							}
+						}
+					}
+				}
+				return true
+			})
+		}
+		key := fname + "|result does not alias a reusable buffer"
+		var bad ast.Expr
+		var badPos token.Pos
+		ast.Inspect(fd.Body, func(m ast.Node) bool {
+			rs, ok := m.(*ast.ReturnStmt)
+			if !ok {
+				return true
+			}
+			for _, e := range rs.Results {
+				if id, ok := core.Unparen(e).(*ast.Ident); ok {
+					if src := taint[core.ObjOf(info, id)]; src != nil && bad == nil {
+						bad, badPos = src, rs.Pos()
+					}
+				}
+			}
+			return true
+		})
+		if bad == nil {
+			r.OK("E11.returned-scratch", key, c.Pos(fd.Pos()), "")
+		} else {
+			r.Fail("E11.returned-scratch", key, c.Pos(badPos), fmt.Sprintf("the returned slice is built on `%s[:0]`, a buffer that is reused by the next call: a caller that keeps the result (stroke-dasharray stores it in the drawing state) sees it overwritten by the next number list that is parsed", types.ExprString(bad)))
+		}
+	}
+	r.Count("E11.slice-returning-functions", n)
+	r.Floor("E11.slice-returning-functions", 1)
+}
